@@ -26,8 +26,6 @@ func init() {
 					{Fn: "Harness_C19_gcsizes_flat3", Tiers: "both", Reach: []string{"end"}, Bounds: "structs of 0-3 fields over 12 basic kinds, pointer, slice, interface (no nesting)"},
 					{Fn: "Harness_C19_gcsizes_nested1", Tiers: "both", Reach: []string{"end"}, Bounds: "structs of 0-1 field; the field may be an array (symbolic length < 2^16 over 5 leaf kinds, or length 0-2), a nested or named struct of 0-2 fields"},
 					{Fn: "Harness_C19_gcsizes_nested2", Tiers: "thorough", Reach: []string{"end"}, Bounds: "structs of 0-2 fields; fields may be arrays (symbolic length < 2^16 over leaf types, or length 0-2 over anything), nested structs of 0-2 fields, named structs"},
-					{Fn: "Harness_C19_gcsizes_nested3", Tiers: "thorough", Reach: []string{"end"}, Bounds: "as nested2 with 0-3 fields"},
-					{Fn: "Harness_C19_gcsizes_deep2", Tiers: "thorough", Reach: []string{"end"}, Bounds: "nesting depth 2, 0-2 fields"},
 				},
 			}, {
 				PkgPath: "honnef.co/go/tools/cmd/structlayout",
